@@ -108,6 +108,13 @@ class EnumV:
         self.vars = vars if vars is not None else {}
     def __repr__(self): return f'Enum({self.tag},{self.vars})'
     def is_variant(self, i): return EQ(self.tag, BV(i, self.tag.size()))
+class CoroV(EnumV):
+    """coroutine (async fn body) state: discriminant + the locals saved per suspension variant (the EnumV part) + captured up-vars (fields)"""
+    def __init__(self, tag, vars, up): EnumV.__init__(self, tag, vars); self.up = list(up)
+    def field(self, i): return self.up[i]
+    def with_field(self, i, v):
+        up = list(self.up); up[i] = v; return CoroV(self.tag, self.vars, up)
+    def rebuild(self, tag, vars): return CoroV(tag, vars, self.up)
 class BoxV:
     """Box<T> with inline content"""
     __slots__ = ('val',)
@@ -371,6 +378,7 @@ class Engine:
         if s[0] == 'v':
             vs = dict(v.vars) if isinstance(v, EnumV) else {}
             vs[s[1]] = self.upd(vs.get(s[1]), rest, val, g)
+            if isinstance(v, CoroV): return v.rebuild(v.tag, vs)
             return EnumV(v.tag if isinstance(v, EnumV) else BV(0, 8), vs)
         if s[0] == 'k': return v.with_slot(s[1], self.upd(v.slot(s[1]), rest, val, g))
         if s[0] == 'b': return BoxV(self.upd(v.val if isinstance(v, BoxV) else None, rest, val, g))
@@ -407,6 +415,7 @@ class Engine:
         return ''
 
     def variant_index(self, ty, name):
+        if name.startswith('variant#'): return int(name[8:])      # coroutine suspension states
         head = type_head(ty)
         vs = self.mir.enums.get(head)
         if vs is None: raise Unsupported(f'downcast on unknown/ambiguous enum {head!r} ({ty!r})')
@@ -591,7 +600,10 @@ class Engine:
                 ops = [self.operand(o, fr) for _, o in rv[2]]
             else:
                 names, ops = None, [self.operand(o, fr) for o in rv[2]]
-            if path.startswith('{closure@'): return ClosureV(path[len('{closure@'):-1], Agg(ops))
+            if path.startswith('{closure@'):
+                span = path[len('{closure@'):-1]
+                if names is not None: ops = ops + self.elided_captures(span, len(ops), fr)
+                return ClosureV(span, Agg(ops))
             segs = [s for s in strip_generics(path).split('::') if s]
             enums = self.mir.enums
             if len(segs) >= 2 and enums.get(segs[-2]) and segs[-1] in enums[segs[-2]]:
@@ -609,6 +621,28 @@ class Engine:
                 raise Unsupported(f'unit variant of unknown enum: {path}')
             return Agg(ops)
         raise Unsupported(f'rvalue {rv}')
+
+    def elided_captures(self, span, have, fr):
+        """rustc's MIR printer zips a closure's operands with the *names* of the captured variables, so when two captures are
+        disjoint fields of one variable the later operands are not printed. Recover them soundly: a missing operand must be a
+        local of the enclosing body that is assigned but never read in the printed text and has exactly the field's type."""
+        name = self.mir.closures.get(span)
+        if name is None: return []
+        body = self.mir.fn_text[name]
+        ftys = {int(m.group(1)): m.group(2) for m in re.finditer(r'\((?:_1|\(\*_1\))\.(\d+): ([^;]*?)\)[;,\)\s]', body)}
+        need = max(ftys) + 1 if ftys else 0
+        if need <= have: return []
+        text = fr.fn.text; out = []
+        for k in range(have, need):
+            if k not in ftys: raise Unsupported(f'closure {span}: capture {k} elided by the MIR printer and its type is not recoverable')
+            cands = []
+            for n, ty in fr.fn.types.items():
+                if ty.strip() != ftys[k].strip(): continue
+                uses = len(re.findall(r'\b_%d\b' % n, text))
+                if uses == 2 and re.search(r'^\s+_%d = ' % n, text, re.M) and re.search(r'^\s+let (?:mut )?_%d: ' % n, text, re.M): cands.append(n)
+            if len(cands) != 1: raise Unsupported(f'closure {span}: capture {k} elided by the MIR printer; {len(cands)} candidate locals of type {ftys[k]}')
+            out.append(self.read_place(('local', cands[0]), fr))
+        return out
 
     # ---- function execution (layered unrolling, guarded single store)
     def cfg_of(self, fn):
@@ -674,7 +708,7 @@ class Engine:
                         v = self.read(pl)
                         vs = v.vars if isinstance(v, EnumV) else {}
                         old = v.tag if isinstance(v, EnumV) else BV(0, 8)
-                        self.write(pl, EnumV(BV(s[2], 8), vs), AND(g, c))
+                        self.write(pl, v.rebuild(BV(s[2], 8), vs) if isinstance(v, CoroV) else EnumV(BV(s[2], 8), vs), AND(g, c))
                 else: raise Unsupported(f'stmt {s}')
             except Unsupported as e:
                 if ' @ ' in str(e): raise
